@@ -11,10 +11,11 @@
 (*   "W"     word with upper-case letters (case matters: never a suffix word)    *)
 (*   "d"     ONE digit                                                           *)
 (*   "total" the word total            "u"  a unit word (s = seconds, bytes ...) *)
-(*   "sep"   one of _ . - /            "bad" any other character (keys only)     *)
+(*   "sep"   one of _ . - /            "colon" the character :                   *)
+(*   "bad"   any other single character (keys and namespaces only)               *)
 (* The rules work on classes, the expected strings are rendered from s, so the   *)
 (* model yields concrete Prometheus names.                                       *)
-EXTENDS Naturals, Integers, Sequences, FiniteSets, TLC, SequencesExt
+EXTENDS Naturals, Integers, Sequences, FiniteSets, TLC
 
 TOTAL == [c |-> "total", s |-> "total"]
 US == [c |-> "sep", s |-> "_"]
@@ -45,9 +46,12 @@ TokEndsWith(t, uw) == t.c = "u" /\ (t.s = uw \/ <<t.s, uw>> \in Longer)
 (* o = [scheme, noUnits, noSuffix, ns, noTarget, noScope, resConst, resKeys]    *)
 Legacy(o) == o.scheme = "legacy"
 
-(* legacy metric-name escaping: every character outside [a-zA-Z0-9_:] -> "_"   *)
-(* (valid instrument names only contain letters, digits and the 4 separators)  *)
-EscName(o, toks) == IF Legacy(o) THEN [i \in 1..Len(toks) |-> IF IsSep(toks[i]) THEN US ELSE toks[i]]
+(* legacy metric-name escaping: every character outside [a-zA-Z0-9_:] -> "_",  *)
+(* a leading digit -> "_".  (Valid instrument names only contain letters,      *)
+(* digits and the 4 separators; a namespace is an arbitrary string.)            *)
+EscName(o, toks) == IF Legacy(o)
+                    THEN [i \in 1..Len(toks) |-> IF toks[i].c \in {"sep", "bad"} \/ (toks[i].c = "d" /\ i = 1)
+                                                 THEN US ELSE toks[i]]
                     ELSE toks
 
 (* WithNamespace: escaped like a name, a trailing "_" is added unless present  *)
@@ -64,32 +68,50 @@ DataOf(kind) == CASE kind \in {"counter", "fcounter", "ocounter", "ofcounter"} -
 
 (* ---------------------------------------------------------------- names      *)
 (* Where the rules leave a choice the model admits every answer; ch selects    *)
-(* one.  All-FALSE is the canonical answer (the exporter's documented choice). *)
+(* one.  Canon is the literal reading of the statement.                         *)
 (*   emptyStem : a counter whose whole name is "total" may keep it as the stem *)
 (*               (total_total) or use it as the suffix (total)                 *)
+(*   glued     : a counter name that ends in "total" WITHOUT a delimiter       *)
+(*               (subtotal) may or may not count as carrying the suffix        *)
 (*   flip      : "unless the name already contains the unit": a name that      *)
 (*               contains the unit word NOT as a delimited suffix may or may   *)
 (*               not get the suffix                                            *)
+(*   trim      : delimiters left at the end of the stem before a suffix is     *)
+(*               appended: kept ("none"), one removed when _total is appended  *)
+(*               ("one"), all removed ("all")                                   *)
 (*   collapse  : runs of "_" SHOULD/MAY be collapsed                           *)
-Choices == [emptyStem : BOOLEAN, flip : BOOLEAN, collapse : BOOLEAN]
-Canon == [emptyStem |-> FALSE, flip |-> FALSE, collapse |-> FALSE]
+Choices == [emptyStem : BOOLEAN, glued : BOOLEAN, flip : BOOLEAN, collapse : BOOLEAN, trim : {"none", "one", "all"}]
+Canon == [emptyStem |-> FALSE, glued |-> FALSE, flip |-> FALSE, collapse |-> FALSE, trim |-> "none"]
 
 RECURSIVE Collapse(_)
 Collapse(toks) == IF Len(toks) < 2 THEN toks
                   ELSE IF toks[1] = US /\ toks[2] = US THEN Collapse(Tail(toks))
                   ELSE <<Head(toks)>> \o Collapse(Tail(toks))
 
+RECURSIVE TrailSeps(_)
+TrailSeps(s) == IF s = <<>> THEN 0 ELSE IF ~IsSep(s[Len(s)]) THEN 0 ELSE 1 + TrailSeps(SubSeq(s, 1, Len(s) - 1))
+
+AddTotal(o, in) == DataOf(in.kind) = "counter" /\ ~o.noSuffix
+UnitOf(o, in) == IF ~o.noUnits /\ in.unit \in DOMAIN UnitWord THEN UnitWord[in.unit] ELSE ""
+
 NameToks(o, in, ch) ==
   LET E == EscName(o, in.toks)
       n == Len(E)
-      addTotal == DataOf(in.kind) = "counter" /\ ~o.noSuffix
-      carriesTotal == n >= 2 /\ E[n].c = "total" /\ IsSep(E[n - 1])
-      onlyTotal == n = 1 /\ E[1].c = "total"
-      stem == IF addTotal /\ carriesTotal THEN SubSeq(E, 1, n - 2)
-              ELSE IF addTotal /\ onlyTotal /\ ch.emptyStem THEN <<>>
+      addTotal == AddTotal(o, in)
+      uw == UnitOf(o, in)
+      endsTotal == n >= 1 /\ E[n].c = "total"
+      delimited == endsTotal /\ n >= 2 /\ IsSep(E[n - 1])
+      (* the name with a carried "total" removed *)
+      base == IF addTotal /\ endsTotal /\ n >= 2 /\ (delimited \/ ch.glued) THEN SubSeq(E, 1, n - 1)
+              ELSE IF addTotal /\ endsTotal /\ n = 1 /\ ch.emptyStem THEN <<>>
               ELSE E
+      k == TrailSeps(base)
+      d0 == IF addTotal /\ delimited THEN 1 ELSE 0             \* the delimiter that belonged to "_total"
+      extra == CASE ch.trim = "none" -> 0
+                 [] ch.trim = "one" -> (IF addTotal /\ d0 = 0 /\ k >= 1 THEN 1 ELSE 0)
+                 [] ch.trim = "all" -> (IF addTotal \/ uw # "" THEN k - d0 ELSE 0)
+      stem == SubSeq(base, 1, Len(base) - d0 - extra)
       m == Len(stem)
-      uw == IF ~o.noUnits /\ in.unit \in DOMAIN UnitWord THEN UnitWord[in.unit] ELSE ""
       carriesUnit == uw # "" /\ m >= 1 /\ stem[m] = UnitTok(uw) /\ (m = 1 \/ IsSep(stem[m - 1]))
       textEnds == uw # "" /\ m >= 1 /\ TokEndsWith(stem[m], uw)
       contains == uw # "" /\ \E i \in 1..m : TokEndsWith(stem[i], uw)
@@ -100,14 +122,13 @@ NameToks(o, in, ch) ==
       full == NsToks(o) \o stem \o tail
   IN IF ch.collapse THEN Collapse(full) ELSE full
 
-CanonName(o, in) == Render(NameToks(o, in, Canon))
-Names(o, in) == {Render(NameToks(o, in, ch)) : ch \in Choices}
+Name(o, in, ch) == Render(NameToks(o, in, ch))
 
 (* the statement's clauses about names, as predicates over a token sequence     *)
 LegalName(o, toks) ==
   /\ toks # <<>>
-  /\ Legacy(o) => /\ toks[1].c \in {"w", "W", "total", "u", "sep"}
-                  /\ \A i \in 1..Len(toks) : IsSep(toks[i]) => toks[i] = US
+  /\ Legacy(o) => /\ toks[1].c \in {"w", "W", "total", "u", "sep", "colon"}
+                  /\ \A i \in 1..Len(toks) : toks[i].c # "bad" /\ (IsSep(toks[i]) => toks[i] = US)
 EndsWithTotal(toks) == LET n == Len(toks) IN n >= 1 /\ toks[n] = TOTAL /\ (n = 1 \/ toks[n - 1] = US)
 (* position just before the _total suffix *)
 BeforeTotal(toks, addTotal) == IF addTotal /\ Len(toks) >= 2 THEN SubSeq(toks, 1, Len(toks) - 2) ELSE toks
@@ -116,8 +137,8 @@ Duplicated(toks, t) == LET n == Len(toks) IN n >= 4 /\ toks[n] = t /\ toks[n - 1
 
 NameClauses(o, in, ch) ==
   LET t == NameToks(o, in, ch)
-      addTotal == DataOf(in.kind) = "counter" /\ ~o.noSuffix
-      uw == IF ~o.noUnits /\ in.unit \in DOMAIN UnitWord THEN UnitWord[in.unit] ELSE ""
+      addTotal == AddTotal(o, in)
+      uw == UnitOf(o, in)
       E == EscName(o, in.toks)
       hadTwice(x) == \E i \in 1..Len(E) : i + 2 <= Len(E) /\ E[i] = x /\ IsSep(E[i + 1]) /\ E[i + 2] = x
       inName == uw # "" /\ \E i \in 1..Len(E) : TokEndsWith(E[i], uw)
@@ -131,8 +152,9 @@ NameClauses(o, in, ch) ==
 (* legacy label names: [a-zA-Z_][a-zA-Z0-9_]* ; anything else -> "_"           *)
 LabelName(o, k) ==
   IF ~Legacy(o) THEN Render(k)
-  ELSE Render([i \in 1..Len(k) |-> IF k[i].c \in {"sep", "bad"} \/ (k[i].c = "d" /\ i = 1)
+  ELSE Render([i \in 1..Len(k) |-> IF k[i].c \in {"sep", "bad", "colon"} \/ (k[i].c = "d" /\ i = 1)
                                    THEN US ELSE k[i]])
+HasColonKey(o, as) == Legacy(o) /\ \E i \in 1..Len(as) : \E j \in 1..Len(as[i].k) : as[i].k[j].c = "colon"
 
 RECURSIVE JoinV(_)
 JoinV(as) == IF as = <<>> THEN "" ELSE IF Len(as) = 1 THEN as[1].v ELSE as[1].v \o ";" \o JoinV(Tail(as))
@@ -160,8 +182,9 @@ SumTo(s, n) == IF n = 0 THEN 0 ELSE s[n] + SumTo(s, n - 1)
 CumBuckets(bounds, counts) == [i \in 1..Len(bounds) |-> [le |-> bounds[i], c |-> SumTo(counts, i)]]
 
 (* exponential -> native histogram: OTel bucket i covers (b^i, b^(i+1)], the    *)
-(* native bucket j covers (b^(j-1), b^j]: j = i + 1.  Scales above 8 do not    *)
-(* exist in Prometheus: the point is merged down to schema 8 (i >> (scale-8)). *)
+(* native bucket j covers (b^(j-1), b^j]: j = i + 1.  Prometheus schemas are    *)
+(* -4..8: a point with a larger scale is merged down to schema 8                *)
+(* (i -> floor(i / 2^(scale-8))); one with a smaller scale cannot be exposed.   *)
 RECURSIVE Pow2(_)
 Pow2(n) == IF n = 0 THEN 1 ELSE 2 * Pow2(n - 1)
 Schema(scale) == IF scale > 8 THEN 8 ELSE scale
@@ -173,79 +196,104 @@ NativeBuckets(scale, off, cnt) ==
       tot(j) == SumOver(cnt, {k \in 1..Len(cnt) : NativeIdx(scale, off + k - 1) = j})
   IN {[i |-> j, c |-> tot(j)] : j \in js}
 
+(* ---------------------------------------------------------------- deviations *)
+(* Behaviours of the unchanged exporter that contradict the rules above, each  *)
+(* described exactly so that a real scrape is attributed to a deviation only   *)
+(* when the deviation explains it completely (see known_findings/C18.json).    *)
+(*   EmptyStemPanic : a counter named exactly "total" (suffixes on) panics     *)
+(*   HelpEmptyFirst : a family first defined with an EMPTY description does     *)
+(*                    not impose it: later instruments keep their own help and *)
+(*                    the registry rejects the scrape                          *)
+(*   ColonKey       : legacy scheme: ":" in an attribute key is not replaced;  *)
+(*                    the series is not exposed                                *)
+(*   ExpScaleDrop   : an exponential histogram point with scale > 8 is not     *)
+(*                    exposed                                                  *)
+Deviations == {"EmptyStemPanic", "HelpEmptyFirst", "ColonKey", "ExpScaleDrop"}
+
 (* ---------------------------------------------------------------- one scrape *)
 (* stream = [inst, scope, data, points]; point = [as, val, count, sum, counts, *)
 (*           scale, zero, poff, pcnt, noff, ncnt]  (the SDK's cumulative view) *)
-(* env = [o, res, insts, ases, bounds]                                          *)
+(* env = [o, res, insts, ases, bounds]; as = index into env.ases                *)
 InstOf(env, id) == CHOOSE in \in Range(env.insts) : in.id = id
+InstIds(env) == {in.id : in \in Range(env.insts)}
+NameMap(env, ch) == [id \in InstIds(env) |-> Name(env.o, InstOf(env, id), ch)]
+NameMaps(env) == {NameMap(env, ch) : ch \in Choices}
 
-Marker(id) == Lab("vinst", "i" \o ToString(id))
+(* every measurement of the harness carries vinst = instrument, vas = attribute set *)
+Markers(id, a) == {Lab("vinst", "i" \o ToString(id)), Lab("vas", "a" \o ToString(a))}
 
-XSeries(env, st, p) ==
+XSeries(env, st, p, dv) ==
   LET o == env.o
-      al == Labels(o, env.ases[p.as])
+      as == env.ases[p.as]
+      al == Labels(o, as)
       fixed == ScopeLabels(o, st.scope) \cup ConstLabels(o, env.res)
-      base == [labels |-> al \cup {Marker(st.inst)} \cup fixed,
-               (* an attribute whose sanitised key equals a scope / constant label: the *)
-               (* rules do not say which wins; only presence and values are checked     *)
-               loose |-> LabelNames(al) \cap LabelNames(fixed) # {},
+      (* an attribute whose sanitised key equals a scope / constant label: the rules do *)
+      (* not say what happens; the series may be missing, only its values are checked   *)
+      loose == LabelNames(al) \cap LabelNames(fixed) # {}
+      exp == st.data = "exphist"
+      presence == IF ("ColonKey" \in dv /\ HasColonKey(o, as)) \/ ("ExpScaleDrop" \in dv /\ exp /\ p.scale > 8) THEN "absent"
+                  ELSE IF loose \/ (exp /\ p.scale < -4) THEN "may" ELSE "must"
+      base == [labels |-> al \cup Markers(st.inst, p.as) \cup fixed, loose |-> loose, presence |-> presence,
                val |-> "", count |-> 0, sum |-> "", buckets |-> <<>>, native |-> FALSE,
-               schema |-> 0, zero |-> 0, pos |-> {}, neg |-> {}, anyBuckets |-> FALSE]
+               schema |-> 0, zero |-> 0, pos |-> {}, neg |-> {}]
   IN CASE st.data \in {"counter", "gauge"} -> [base EXCEPT !.val = p.val]
        [] st.data = "hist" -> [base EXCEPT !.count = p.count, !.sum = p.sum,
                                            !.buckets = CumBuckets(env.bounds, p.counts)]
        [] st.data = "exphist" -> [base EXCEPT !.count = p.count, !.sum = p.sum, !.native = TRUE,
                                               !.schema = Schema(p.scale), !.zero = p.zero,
-                                              !.anyBuckets = p.scale = 99,   \* 99 = "not modelled" (MC only)
-                                              !.pos = IF p.scale = 99 THEN {} ELSE NativeBuckets(p.scale, p.poff, p.pcnt),
-                                              !.neg = IF p.scale = 99 THEN {} ELSE NativeBuckets(p.scale, p.noff, p.ncnt)]
+                                              !.pos = NativeBuckets(p.scale, p.poff, p.pcnt),
+                                              !.neg = NativeBuckets(p.scale, p.noff, p.ncnt)]
 
 (* family cache: name -> (type, help), kept across scrapes.  First definition  *)
 (* of a name wins: a later instrument of another type is dropped, a later      *)
-(* description is replaced by the first.  strict = only canonical names (used  *)
-(* whenever more than one instrument is in play).                               *)
-RECURSIVE Walk(_, _, _, _)
-Walk(env, streams, cache, shown) ==
+(* description is replaced by the first.  eh = the help text the instrument's  *)
+(* series are emitted with.                                                     *)
+RECURSIVE Walk(_, _, _, _, _, _)
+Walk(env, streams, cache, nm, dv, shown) ==
   IF streams = <<>> THEN [cache |-> cache, shown |-> shown]
   ELSE LET st == Head(streams)
            in == InstOf(env, st.inst)
-           nm == CanonName(env.o, in)
+           n == nm[st.inst]
            ty == PromType(st.data)
-           hit == {c \in cache : c.name = nm}
-       IN IF hit = {} THEN Walk(env, Tail(streams), cache \cup {[name |-> nm, typ |-> ty, help |-> in.desc]},
-                                Append(shown, [name |-> nm, typ |-> ty, help |-> in.desc, st |-> st]))
-          ELSE LET c == CHOOSE c \in hit : TRUE IN
-               IF c.typ # ty THEN Walk(env, Tail(streams), cache, shown)
-               ELSE Walk(env, Tail(streams), cache, Append(shown, [name |-> nm, typ |-> ty, help |-> c.help, st |-> st]))
+           hit == {c \in cache : c.name = n}
+       IN IF hit = {} THEN Walk(env, Tail(streams), cache \cup {[name |-> n, typ |-> ty, help |-> in.desc]}, nm, dv,
+                                Append(shown, [name |-> n, typ |-> ty, eh |-> in.desc, st |-> st]))
+          ELSE LET c == CHOOSE c \in hit : TRUE
+                   eh == IF "HelpEmptyFirst" \in dv /\ c.help = "" THEN in.desc ELSE c.help IN
+               IF c.typ # ty THEN Walk(env, Tail(streams), cache, nm, dv, shown)
+               ELSE Walk(env, Tail(streams), cache, nm, dv, Append(shown, [name |-> n, typ |-> ty, eh |-> eh, st |-> st]))
 
-InfoSeries(ls) == [labels |-> ls, loose |-> FALSE, val |-> "1", count |-> 0, sum |-> "", buckets |-> <<>>,
-                   native |-> FALSE, schema |-> 0, zero |-> 0, pos |-> {}, neg |-> {}, anyBuckets |-> FALSE]
+InfoSeries(ls, pres) == [labels |-> ls, loose |-> FALSE, presence |-> pres, val |-> "1", count |-> 0, sum |-> "",
+                         buckets |-> <<>>, native |-> FALSE, schema |-> 0, zero |-> 0, pos |-> {}, neg |-> {}]
 
-(* result: [cache, fams]; a family = [names, typ, help, series, optional]      *)
-Scrape(env, streams, cache) ==
-  LET w == Walk(env, streams, cache, <<>>)
+(* result: [cache, fams, panic, reject]; family = [name, typ, help, anyHelp, series];  *)
+(* a series carries presence = "must" | "may"; absent ones are left out                  *)
+Scrape(env, streams, cache, nm, dv) ==
+  LET o == env.o
+      w == Walk(env, streams, cache, nm, dv, <<>>)
       sh == w.shown
-      single == Len(env.insts) = 1
-      fam(nm) == LET es == SelectSeq(sh, LAMBDA e : e.name = nm)
-                 IN [names |-> IF single THEN Names(env.o, InstOf(env, es[1].st.inst)) ELSE {nm},
-                     typ |-> es[1].typ, help |-> es[1].help, optional |-> FALSE,
-                     series |-> UNION {{XSeries(env, es[i].st, es[i].st.points[k]) : k \in 1..Len(es[i].st.points)}
-                                       : i \in 1..Len(es)}]
-      target == IF env.o.noTarget THEN {}
-                ELSE {[names |-> {"target_info"}, typ |-> "gauge", help |-> "Target metadata", optional |-> FALSE,
-                       series |-> {InfoSeries(Labels(env.o, env.res))}]}
+      fam(n) == LET es == SelectSeq(sh, LAMBDA e : e.name = n)
+                    good == SelectSeq(es, LAMBDA e : e.eh = es[1].eh)   \* the registry keeps the first help of a scrape
+                    all == UNION {{XSeries(env, good[i].st, good[i].st.points[k], dv) : k \in 1..Len(good[i].st.points)}
+                                  : i \in 1..Len(good)}
+                IN [name |-> n, typ |-> es[1].typ, help |-> es[1].eh, anyHelp |-> FALSE,
+                    series |-> {x \in all : x.presence # "absent"}]
+      reject == \E i, j \in 1..Len(sh) : sh[i].name = sh[j].name /\ sh[i].eh # sh[j].eh
+      target == IF o.noTarget THEN {}
+                ELSE {[name |-> "target_info", typ |-> "gauge", help |-> "", anyHelp |-> TRUE,
+                       series |-> {InfoSeries(Labels(o, env.res), "must")}]}
       shownScopes == {sh[i].st.scope : i \in 1..Len(sh)}
       allScopes == {streams[i].scope : i \in 1..Len(streams)}
-      (* scope info for every scope with an exposed series; a scope whose instruments  *)
-      (* were all dropped may or may not have one                                       *)
-      scopeInfo == IF env.o.noScope \/ allScopes = {} THEN {}
-                   ELSE {[names |-> {"otel_scope_info"}, typ |-> "gauge", help |-> "Instrumentation Scope metadata",
-                          optional |-> shownScopes = {},
-                          series |-> {InfoSeries(ScopeLabels(env.o, s)) : s \in shownScopes},
-                          optSeries |-> {InfoSeries(ScopeLabels(env.o, s)) : s \in allScopes \ shownScopes}]}
-  IN [cache |-> w.cache,
-      fams |-> {fam(nm) : nm \in {sh[i].name : i \in 1..Len(sh)}} \cup target,
-      scopeInfo |-> scopeInfo]
+      (* scope info for every scope with an exposed instrument; a scope whose instruments  *)
+      (* were all dropped may or may not have one                                           *)
+      scopeInfo == IF o.noScope \/ allScopes = {} THEN {}
+                   ELSE {[name |-> "otel_scope_info", typ |-> "gauge", help |-> "", anyHelp |-> TRUE,
+                          series |-> {InfoSeries(ScopeLabels(o, s), "must") : s \in shownScopes}
+                                     \cup {InfoSeries(ScopeLabels(o, s), "may") : s \in allScopes \ shownScopes}]}
+      panic == "EmptyStemPanic" \in dv /\ \E i \in 1..Len(streams) :
+                  LET in == InstOf(env, streams[i].inst) IN AddTotal(o, in) /\ EscName(o, in.toks) = <<TOTAL>>
+  IN [cache |-> w.cache, fams |-> {fam(n) : n \in {sh[i].name : i \in 1..Len(sh)}} \cup target \cup scopeInfo,
+      panic |-> panic, reject |-> reject]
 
 (* ---------------------------------------------------------------- matching   *)
 (* obs = what a real scrape exposed (projection written by the harness):       *)
@@ -253,42 +301,57 @@ Scrape(env, streams, cache) ==
 (*   [labels: seq of <<n, v>>, val, count, sum, buckets, native, schema, zero, pos, neg]]] *)
 SeriesLabelsOK(x, s) ==
   LET ol == Range(s.labels) IN
-  /\ Cardinality({l[1] : l \in ol}) = Len(s.labels)
-  /\ \A l \in x.labels : (~x.loose \/ l.n = "vinst") => \E q \in ol : q[1] = l.n /\ q[2] \in l.vs
+  /\ Cardinality({l[1] : l \in ol}) = Len(s.labels)                         \* consistent: no label twice
+  /\ \A l \in x.labels : (~x.loose \/ l.n \in {"vinst", "vas"}) => \E q \in ol : q[1] = l.n /\ q[2] \in l.vs
   /\ ~x.loose => {l[1] : l \in ol} = LabelNames(x.labels)
 SeriesValueOK(x, s) ==
   /\ s.val = x.val /\ s.count = x.count /\ s.sum = x.sum /\ s.buckets = x.buckets /\ s.native = x.native
-  /\ x.native => /\ s.schema = x.schema /\ s.zero = x.zero
-                 /\ x.anyBuckets \/ (Range(s.pos) = x.pos /\ Range(s.neg) = x.neg)
+  /\ x.native => (s.schema = x.schema /\ s.zero = x.zero /\ Range(s.pos) = x.pos /\ Range(s.neg) = x.neg)
 SeriesOK(x, s) == SeriesLabelsOK(x, s) /\ SeriesValueOK(x, s)
+
+Must(x) == {xs \in x.series : xs.presence = "must"}
 
 (* first clause that fails for an expected family against the observed list    *)
 FamilyVerdict(x, obsFams) ==
-  LET cands == {f \in Range(obsFams) : f.name \in x.names} IN
-  IF cands = {} THEN "missing-family"
-  ELSE LET f == CHOOSE f \in cands : TRUE
-           opt == IF "optSeries" \in DOMAIN x THEN x.optSeries ELSE {} IN
+  LET cands == {f \in Range(obsFams) : f.name = x.name} IN
+  IF cands = {} THEN (IF Must(x) = {} THEN "ok" ELSE "missing-family")
+  ELSE LET f == CHOOSE f \in cands : TRUE IN
        IF Cardinality(cands) > 1 THEN "split-family"
        ELSE IF f.typ # x.typ THEN "type"
-       ELSE IF f.help # x.help THEN "help"
-       ELSE IF \E xs \in x.series : ~\E s \in Range(f.series) : SeriesLabelsOK(xs, s) THEN "missing-series"
-       ELSE IF \E s \in Range(f.series) : ~\E xs \in x.series \cup opt : SeriesLabelsOK(xs, s) THEN "extra-series"
-       ELSE IF Len(f.series) > Cardinality(x.series) + Cardinality(opt) THEN "extra-series"
-       ELSE IF \E xs \in x.series : ~\E s \in Range(f.series) : SeriesOK(xs, s) THEN "value"
+       ELSE IF ~x.anyHelp /\ f.help # x.help THEN "help"
+       ELSE IF \E xs \in Must(x) : ~\E s \in Range(f.series) : SeriesLabelsOK(xs, s) THEN "missing-series"
+       ELSE IF \E s \in Range(f.series) : ~\E xs \in x.series : SeriesLabelsOK(xs, s) THEN "extra-series"
+       ELSE IF Len(f.series) > Cardinality(x.series) THEN "extra-series"
+       ELSE IF \E s \in Range(f.series) : ~\E xs \in x.series : SeriesOK(xs, s) THEN "value"
        ELSE "ok"
 
 (* verdict for a whole scrape: [why |-> "ok" or the first broken clause, fam |-> names]  *)
 Verdict(exp, obs) ==
-  LET xf == exp.fams \cup {x \in exp.scopeInfo : ~x.optional}
-      allx == exp.fams \cup exp.scopeInfo
-      bad == {x \in xf : FamilyVerdict(x, obs.fams) # "ok"}
-      optbad == {x \in exp.scopeInfo : x.optional /\ FamilyVerdict(x, obs.fams) \notin {"ok", "missing-family"}}
-      extra == {f \in Range(obs.fams) : ~\E x \in allx : f.name \in x.names}
+  LET bad == {x \in exp.fams : FamilyVerdict(x, obs.fams) # "ok"}
+      extra == {f \in Range(obs.fams) : ~\E x \in exp.fams : f.name = x.name}
+  IN IF obs.panic # "" THEN [why |-> IF exp.panic THEN "ok" ELSE "panic", fam |-> {}]
+     ELSE IF exp.panic THEN [why |-> "no-panic", fam |-> {}]
+     ELSE IF obs.gerr # "" /\ ~exp.reject THEN [why |-> "registry-rejects", fam |-> {}]
+     ELSE IF obs.gerr = "" /\ exp.reject THEN [why |-> "no-reject", fam |-> {}]
+     ELSE IF obs.invalid # <<>> THEN [why |-> "invalid-name", fam |-> Range(obs.invalid)]
+     ELSE IF bad # {} THEN LET x == CHOOSE x \in bad : TRUE IN [why |-> FamilyVerdict(x, obs.fams), fam |-> {x.name}]
+     ELSE IF extra # {} THEN [why |-> "extra-family", fam |-> {f.name : f \in extra}]
+     ELSE [why |-> "ok", fam |-> {}]
+
+(* a scrape taken WHILE measurements are being recorded (exp = the exposition  *)
+(* of the final state): no crash, accepted by the registry, legal names, and   *)
+(* every family / series is one of the expected ones with the expected type,   *)
+(* help and labels.  Values are in flux and not compared.                      *)
+PartialVerdict(exp, obs) ==
+  LET known(f) == {x \in exp.fams : x.name = f.name}
+      badf == {f \in Range(obs.fams) :
+                 \/ known(f) = {}
+                 \/ \E x \in known(f) : \/ f.typ # x.typ \/ (~x.anyHelp /\ f.help # x.help)
+                                        \/ \E s \in Range(f.series) : ~\E xs \in x.series : SeriesLabelsOK(xs, s)
+                                        \/ Len(f.series) > Cardinality(x.series)}
   IN IF obs.panic # "" THEN [why |-> "panic", fam |-> {}]
      ELSE IF obs.gerr # "" THEN [why |-> "registry-rejects", fam |-> {}]
      ELSE IF obs.invalid # <<>> THEN [why |-> "invalid-name", fam |-> Range(obs.invalid)]
-     ELSE IF bad # {} THEN LET x == CHOOSE x \in bad : TRUE IN [why |-> FamilyVerdict(x, obs.fams), fam |-> x.names]
-     ELSE IF optbad # {} THEN [why |-> "scope-info", fam |-> {"otel_scope_info"}]
-     ELSE IF extra # {} THEN [why |-> "extra-family", fam |-> {f.name : f \in extra}]
+     ELSE IF badf # {} THEN [why |-> "unexpected-series", fam |-> {f.name : f \in badf}]
      ELSE [why |-> "ok", fam |-> {}]
 =============================================================================
